@@ -55,7 +55,7 @@ def cleanup(path: str) -> None:
     shutil.rmtree(path, ignore_errors=True)
 
 
-_TUPLE = re.compile(r'^<<"[A-Z_]+"')
+_TUPLE = re.compile(r'^<< ?"[A-Z_]+"')
 
 
 def _parse_tuple(line: str):
@@ -127,8 +127,20 @@ def run_tlc(module: str, cfg: str, *, workdir: str, env: dict | None = None, wor
         shutil.rmtree(meta, ignore_errors=True)
     out = p.stdout
     res = TLCResult(module=module, ok=False, wall=time.time() - t0)
+    pending = None
     for line in out.splitlines():
+        if pending is not None:           # TLC wraps long tuples over several lines
+            pending += " " + line.strip()
+            if pending.rstrip().endswith(">>"):
+                t = _parse_tuple(pending)
+                if t:
+                    res.prints.append(t)
+                pending = None
+            continue
         if _TUPLE.match(line):
+            if not line.rstrip().endswith(">>"):
+                pending = line.strip()
+                continue
             t = _parse_tuple(line)
             if t:
                 res.prints.append(t)
